@@ -62,7 +62,7 @@ def handle_number(number: func_xltypes.XlAnything, origin) -> Union[int, str]:
         as_str = str(int(number))
 
     elif isinstance(number, func_xltypes.Text):
-        as_str = str(number) if number else "0"
+        as_str = str(number) or "0"
 
     if len(as_str) > 10:
         raise NumExcelError()
